@@ -1,5 +1,6 @@
 use crate::engine::Run;
 
+pub mod c01;
 pub mod c03;
 pub mod c04;
 pub mod c05;
@@ -15,6 +16,7 @@ pub mod c16;
 pub mod linerules;
 
 pub const TABLE: &[(&str, fn(&mut Run))] = &[
+    ("C01", c01::run),
     ("C03", c03::run),
     ("C04", c04::run),
     ("C05", c05::run),
